@@ -56,7 +56,7 @@ func goroutineState(tag string) string {
 	buf = buf[:runtime.Stack(buf, true)]
 	state := "unknown"
 	for _, g := range strings.Split(string(buf), "\n\n") {
-		if !strings.Contains(g, tag) || strings.Contains(g, "goroutineState") {
+		if !strings.Contains(g, tag) || !strings.Contains(g, "syn.Watch.func1") || strings.Contains(g, "goroutineState") {
 			continue
 		}
 		head := strings.SplitN(g, "\n", 2)[0] // goroutine 12 [running]:
